@@ -810,7 +810,7 @@ def worker_main():
     for k_item, item in enumerate(job["items"]):
         src, pid_ = item["src"], item["id"]
         # every program gets its share of what is left of the budget
-        item_end = time.time() + max(0.5, (t_end - time.time()) / max(1, n_items - k_item))
+        item_end = time.time() + max(0.0, (t_end - time.time()) / max(1, n_items - k_item))
         try:
             _fresh_state(src)
         except Exception as ex:  # not a program of the language: not a case
@@ -824,6 +824,9 @@ def worker_main():
                     rec["truncated"] = True
                     break
                 for cont in item["continuations"]:
+                    if time.time() > item_end:
+                        rec["truncated"] = True
+                        break
                     evs = hist[: cut - 1] + cont
                     for pick in item.get("picks", [0]):
                         live, li = _run_trace(src, evs, cut, "live", pick)
